@@ -241,6 +241,7 @@ pub fn run(ctx: &Ctx) -> PropResult {
         if quick { " — quick: 400-day sub-windows around the leap day / era boundary" } else { "" }
     );
     meta.required_bins = vec![
+        "local-twin/judged", "local-twin/synthetic-fixed-zone", "local-twin/real-zone-with-transitions",
         "pair/same-day", "pair/straddles-era", "pair/same-month", "pair/same-year-day-borrow", "pair/year-borrow", "pair/multi-year",
         "value-claim/checked", "value-claim/skipped-dom>28", "dt/equal-time", "dt/a-1ns-before-b-time", "dt/a-1ns-after-b-time", "dt/far-apart",
     ];
